@@ -154,6 +154,10 @@ func (unpacker *RtpUnpackerAac) TryUnpackOne(list *RtpPacketList) (unpackedFlag 
 
 	// more complete access unit
 	for i := range aus {
+		if aus[i].pos+aus[i].size > uint32(len(b)) {
+			Log.Errorf("access unit exceeds rtp packet. pos=%d, size=%d, len(b)=%d", aus[i].pos, aus[i].size, len(b))
+			break
+		}
 		var outPkt base.AvPacket
 		outPkt.PayloadType = unpacker.payloadType
 		outPkt.Timestamp = rtpTimestamp2Ms(p.Packet.Header.Timestamp, unpacker.clockRate)
@@ -174,7 +178,10 @@ type au struct {
 }
 
 func parseAu(b []byte) (ret []au) {
-	// TODO(chef): [fix] 解析b时，没有判断长度有效性 202207
+	if len(b) < 2 {
+		Log.Warnf("rtp packet too short for an AU-headers-length. len(b)=%d", len(b))
+		return nil
+	}
 
 	// AU Header Section
 	var auHeadersLength uint32
@@ -187,6 +194,10 @@ func parseAu(b []byte) (ret []au) {
 
 	pauh := uint32(2)                  // AU Header pos
 	pau := uint32(2) + auHeadersLength // AU pos
+	if pau > uint32(len(b)) {
+		Log.Warnf("AU header section exceeds rtp packet. auHeadersLength=%d, len(b)=%d", auHeadersLength, len(b))
+		return nil
+	}
 
 	for i := uint32(0); i < nbAuHeaders; i++ {
 		// TODO chef: auSize和auIndex所在的位数是写死的13bit，3bit，标准的做法应该从外部传入，比如从sdp中获取后传入
